@@ -27,8 +27,9 @@ type RunCfg struct {
 	SettleNs       int64   `json:"settle_ns,omitempty"`
 	Snapshots      bool    `json:"snapshots,omitempty"` // full state snapshot around every op (sequential runs only)
 	Concurrent     bool    `json:"concurrent,omitempty"`
-	WholeSystem    bool    `json:"whole_system,omitempty"` // C08: run the CHF in front of the rating server (tariff agreement end to end)
-	MemRecords     bool    `json:"mem_records,omitempty"`  // read the in-memory records after every op (sequential runs only)
+	CounterStart   uint64  `json:"counter_start,omitempty"` // initial value of the CHF-wide local record sequence number (a long-running process)
+	WholeSystem    bool    `json:"whole_system,omitempty"`  // C08: run the CHF in front of the rating server (tariff agreement end to end)
+	MemRecords     bool    `json:"mem_records,omitempty"`   // read the in-memory records after every op (sequential runs only)
 }
 
 type Account struct {
@@ -59,21 +60,24 @@ type Unit struct {
 
 // Op is one step of a task.
 type Op struct {
-	ID         int    `json:"id"`
-	Kind       string `json:"kind"` // create | update | release | recharge | raw | sleep | dbset
-	Supi       string `json:"supi,omitempty"`
-	Sess       string `json:"sess,omitempty"`     // logical session name
-	RefMode    string `json:"ref_mode,omitempty"` // "" bound ref | unknown | foreign:<sess> | literal:<text>
-	Consumer   string `json:"consumer,omitempty"`
-	ChargingID int32  `json:"charging_id,omitempty"`
-	Units      []Unit `json:"units,omitempty"`
-	Final      bool   `json:"final,omitempty"`
-	Triggers   []Trig `json:"triggers,omitempty"`
-	RG         int32  `json:"rg,omitempty"`     // recharge
-	TopUp      int64  `json:"top_up,omitempty"` // recharge: amount credited in the DB before the PUT
-	NotifyURI  string `json:"notify_uri,omitempty"`
-	OneTime    bool   `json:"one_time,omitempty"`
-	NoPDU      bool   `json:"no_pdu,omitempty"`
+	ID           int    `json:"id"`
+	Kind         string `json:"kind"` // create | update | release | recharge | raw | sleep | dbset
+	Supi         string `json:"supi,omitempty"`
+	Sess         string `json:"sess,omitempty"`     // logical session name
+	RefMode      string `json:"ref_mode,omitempty"` // "" bound ref | unknown | foreign:<sess> | literal:<text>
+	Consumer     string `json:"consumer,omitempty"`
+	ChargingID   int32  `json:"charging_id,omitempty"`
+	Units        []Unit `json:"units,omitempty"`
+	Final        bool   `json:"final,omitempty"`
+	Triggers     []Trig `json:"triggers,omitempty"`
+	RG           int32  `json:"rg,omitempty"`     // recharge
+	TopUp        int64  `json:"top_up,omitempty"` // recharge: amount credited in the DB before the PUT
+	NotifyURI    string `json:"notify_uri,omitempty"`
+	ConsumerV4   string `json:"consumer_v4,omitempty"`   // nfConsumerIdentification.nFIPv4Address (create)
+	ConsumerV6   string `json:"consumer_v6,omitempty"`   // nFIPv6Address
+	ConsumerFqdn string `json:"consumer_fqdn,omitempty"` // nFFqdn
+	OneTime      bool   `json:"one_time,omitempty"`
+	NoPDU        bool   `json:"no_pdu,omitempty"`
 	// raw request (C11 probes)
 	Method string          `json:"method,omitempty"`
 	Path   string          `json:"path,omitempty"`
